@@ -36,7 +36,8 @@ PROP = {
                 "optional Reserve) followed by a byte string made of frames in every length class relative to max "
                 "(0,1,2,125,126,127,200,65535,65536,max-1,max,max+1, 2^32, 2^62, 2^63-1, 2^63, 2^63+k, 2^64-1; huge ones header-only), random header "
                 "bits, non-minimal length forms, hostile random bytes, truncated tails and frames produced by the library's own encoder "
-                "(encfeed), delivered in random segments by Write (feed) or by ReadFrom from a backlog (read), with Decode called 0..4 times "
+                "(encfeed), delivered in random segments by Write (feed) or by ReadFrom from a backlog (read), sometimes followed by a caller-side "
+                "Commit (of part, all or more than what was received: bytes already in the read area), with Decode called 0..4 times "
                 "after each segment; enum = 12 canonical strings at every split into 2 and 3 segments and every composition for strings up to "
                 "the given length. A script is non-trivial when the model reached a non-default branch (lazy consume, each needmore stage, "
                 "too big, top-bit length, 16/64-bit form, mask, Reserve growth, partial read, ...); distinct = by SHA-1 of the implementation trace",
